@@ -173,7 +173,7 @@ def run(ctx, real_cases=()):
                 workers=1, timeout=3000)
     ctx.add_tlc(g, "covalent coupling configuration generator")
     recs = []
-    stride = 1 if ctx.thorough() else 41
+    stride = 7 if ctx.thorough() else 41        # (every molecule of the thorough generator took 40 min of replay)
     for n, c in enumerate(g.printed):
         if n % stride != ctx.seed % stride:
             continue
